@@ -6,6 +6,7 @@ from ..core import (AnalysisError, dotted, unparse, calls_in, call_name,
 from ..flow import guards_at, flatten_guards, always_exits
 from ..tables import tables_of
 from ..mutate import Mutant, in_func
+from .. import guardspec
 
 ID = 'C04'
 EXPLANATION = (
@@ -581,6 +582,19 @@ def rule_r5(prog, res):
                         'is a customisation of Array, so xsi:type="CArray" '
                         'is accepted in an Array(D) slot and user code '
                         'receives C instances' % nm)
+            continue
+        deep = any(call_name(e) == nm for e in calls_in(g.node)) or any(
+            isinstance(w_, ast.While) for w_ in walk_no_defs(g.node))
+        res.ob('R5', g.where, '%s %s' % (nm, 'descends into member types '
+               'recursively' if deep else 'compares members one level deep '
+               'only'), 'ok' if deep else 'VIOLATED')
+        if not deep:
+            res.finding('R5', 'ProtocolMixin.%s|array-members|one-level' % nm,
+                        g.where, '%s compares the members of two arrays with '
+                        'a plain subclass test: the members of an array of '
+                        'arrays are again customisations of Array, so '
+                        'Array(Array(Unicode)) is accepted where '
+                        'Array(Array(Integer)) is declared' % nm)
 
 
 def rule_r6(prog, res):
@@ -684,6 +698,95 @@ def rule_r8(prog, res):
                                 f.qualname, cn, unparse(passed)
                                 if passed is not None else 'defaults to None'))
     res.floor('R8', 'nested reader calls', n, 4)
+    # every request entry point hands the configured validator down
+    m = 0
+    for mod in prog.modules.values():
+        if not mod.relpath.startswith('spyne/protocol/'):
+            continue        # request paths only; util helpers call no user code
+        for f in mod.functions.values():
+            if f.name in ('_from_dict_value', '_doc_to_object'):
+                continue
+            for call in calls_in(f.node):
+                if call_name(call) != '_doc_to_object' or \
+                        not isinstance(call.func, ast.Attribute):
+                    continue
+                recv = unparse(call.func.value)
+                if len(call.args) >= 2 and unparse(call.args[1]) == 'Fault':
+                    continue        # a received fault is not user input
+                passed = None
+                for k in call.keywords:
+                    if k.arg == 'validator':
+                        passed = k.value
+                if passed is None and len(call.args) >= 4:
+                    passed = call.args[3]
+                m += 1
+                ok = passed is not None and unparse(passed) in (
+                    '%s.validator' % recv, 'validator')
+                where = '%s:%d' % (mod.relpath, call.lineno)
+                res.ob('R8', where, '%s -> %s._doc_to_object(validator=%s)' % (
+                    f.qualname, recv, unparse(passed) if passed is not None
+                    else '<default None>'), 'ok' if ok else 'VIOLATED')
+                if not ok:
+                    res.finding('R8', '%s|_doc_to_object|validator-dropped' %
+                                f.qualname, where, '%s reads the request with '
+                                '_doc_to_object but does not pass the '
+                                'protocol\'s validator (%s): the kind checks '
+                                'are off even under soft validation, so maps '
+                                'and lists reach user code in scalar slots' % (
+                                    f.qualname, unparse(passed) if passed
+                                    is not None else 'defaults to None'))
+    res.floor('R8', 'entry-point reader calls', m, 4)
+
+
+# ------------------------------------------------------------------- R9
+def rule_r9(prog, res):
+    res.rule('R9', 'every method context, auxiliary ones included, reads the '
+             'request with its own descriptor; no context takes over the '
+             'objects another context deserialized')
+    a = prog.cls('spyne.auxproc._base:AuxProcBase')
+    f = a.methods.get('process')
+    if f is None:
+        raise AnalysisError('AuxProcBase.process', 'not found')
+    calls = [c for c in calls_in(f.node) if call_name(c) == 'get_in_object']
+    res.floor('R9', 'get_in_object calls in AuxProcBase.process', len(calls),
+              1)
+    for c in calls:
+        st = c
+        while not isinstance(st, ast.stmt):
+            st = st._parent
+        guardspec.check(res, 'R9', f, st, 'the deserialization of the '
+                        'auxiliary context', allowed=[],
+                        key='AuxProcBase.process|get_in_object')
+    n = 0
+    for mod in prog.modules.values():
+        if '/test/' in mod.relpath:
+            continue
+        for fn in mod.functions.values():
+            for st in walk_no_defs(fn.node):
+                if not isinstance(st, ast.Assign):
+                    continue
+                for t in st.targets:
+                    if not (isinstance(t, ast.Attribute) and t.attr in (
+                            'in_object', 'in_header')):
+                        continue
+                    n += 1
+                    base = unparse(t.value)
+                    foreign = [unparse(e) for e in ast.walk(st.value)
+                               if isinstance(e, ast.Attribute) and e.attr in (
+                                   'in_object', 'in_header') and
+                               unparse(e.value) != base]
+                    where = '%s:%d' % (mod.relpath, st.lineno)
+                    res.ob('R9', where, '%s stores %s.%s from %s' % (
+                        fn.qualname, base, t.attr, unparse(st.value)[:50]),
+                        'VIOLATED' if foreign else 'ok')
+                    if foreign:
+                        res.finding('R9', '%s|%s|foreign-context' % (
+                            fn.qualname, t.attr), where, '%s copies %s into '
+                            '%s.%s: the object was built from another '
+                            'method\'s declared types, so this method runs '
+                            'with values its own signature never validated' %
+                            (fn.qualname, foreign[0], base, t.attr))
+    res.floor('R9', 'stores of in_object/in_header', n, 15)
 
 
 def run(prog, res, tier):
@@ -696,6 +799,7 @@ def run(prog, res, tier):
     res.run_rule(rule_r6, prog, res)
     res.run_rule(rule_r7, prog, res)
     res.run_rule(rule_r8, prog, res)
+    res.run_rule(rule_r9, prog, res)
 
 
 _X = 'spyne/protocol/xml.py'
@@ -705,6 +809,33 @@ _Y = 'spyne/protocol/yaml.py'
 _C = 'spyne/model/complex.py'
 
 MUTANTS = [
+    Mutant('aux-reuses-primary-objects', 'R9', 'fire',
+           'spyne/auxproc/_base.py',
+           in_func('AuxProcBase.process',
+                   "        server.get_in_object(ctx)\n",
+                   "        p_ctx = ctx.aux.parent\n"
+                   "        if p_ctx.in_error is None and p_ctx.in_object is "
+                   "not None:\n"
+                   "            ctx.in_object = p_ctx.in_object\n"
+                   "        else:\n"
+                   "            server.get_in_object(ctx)\n"),
+           'foreign-context'),
+    Mutant('array-members-one-level', 'R5', 'fire', 'spyne/protocol/_base.py',
+           in_func('ProtocolMixin.is_substitutable',
+                   "return pcls.is_substitutable(smember, cmember)",
+                   "return pcls.issubclass(smember, cmember)"),
+           'one-level'),
+    Mutant('msgpack-entry-drops-validator', 'R8', 'fire',
+           'spyne/protocol/msgpack.py',
+           in_func('MessagePackRpc.deserialize',
+                   "body_class, ctx.in_body_doc, self.validator)",
+                   "body_class, ctx.in_body_doc)"),
+           'validator-dropped'),
+    Mutant('jsonrpc-entry-drops-validator', 'R8', 'fire', _J,
+           in_func('_SpyneJsonRpc1.deserialize',
+                   "ctx.in_body_doc, self.validator)",
+                   "ctx.in_body_doc)"),
+           'validator-dropped'),
     Mutant('orig-read-through-inheritance', 'R5', 'fire',
            'spyne/protocol/_base.py',
            in_func('ProtocolMixin.issubclass',
